@@ -189,21 +189,33 @@ def py_pascal(s):
 
 # ---------------------------------------------------------------------------------------------- C04
 def dup_role(structs, ctree, n):
-    """why is struct name n defined twice? (classification only; the verdict does not depend on it)"""
+    """why is struct name n defined twice? (classification only; the verdict does not depend on it)
+       A: two positions with the same PascalCase path (case variants / separator variants of the same names): no ancestor qualification can separate them
+       B: different ancestor suffixes whose concatenations coincide (Total+Price vs TotalPrice): inherent to naming by concatenation
+       C: the SAME ancestor suffix was used for two positions although their full paths differ: the computed hint is too short"""
     if ctree is None: return 'duplicate struct name'
     nodes = []
     def text_only(t): return t['text'] is not None and not t['attributes'] and not t['children']
     def walk(t, anc, is_root=False):
         if not (is_root or not text_only(t)): return
-        nodes.append((t, anc))
-        for _, c in sorted(t['children'], key=lambda c: (-1 if c[1]['position'] is None else c[1]['position'])): walk(c, anc + [t['name']])
+        nodes.append((t, anc + [py_pascal(t['name'])]))
+        for _, c in sorted(t['children'], key=lambda c: (-1 if c[1]['position'] is None else c[1]['position'])): walk(c, anc + [py_pascal(t['name'])])
     walk(ctree, [], True)
     if len(nodes) != len(structs): return 'duplicate struct name'
-    pos = [anc for (t, anc), s in zip(nodes, structs) if s['name'] == n]
-    own = [t['name'] for (t, anc), s in zip(nodes, structs) if s['name'] == n]
-    if len(pos) >= 2 and any(pos[i] == pos[j] and py_pascal(own[i]) == py_pascal(own[j]) for i in range(len(pos)) for j in range(i)):
-        return 'duplicate struct name: sibling elements with the same PascalCase form'
-    return 'duplicate struct name: ancestor-qualified name coincides with another struct name'
+    paths = [path for (t, path), s in zip(nodes, structs) if s['name'] == n]
+    def suffix(path):
+        for k in range(1, len(path) + 1):
+            if ''.join(path[-k:]) == n: return path[-k:]
+        return None
+    roles = set()
+    for i in range(len(paths)):
+        for j in range(i):
+            if paths[i] == paths[j]: roles.add('A')
+            elif suffix(paths[i]) is not None and suffix(paths[i]) == suffix(paths[j]): roles.add('C')
+            else: roles.add('B')
+    if 'C' in roles: return 'duplicate struct name: the same ancestor suffix is used for two positions whose full paths differ (name hint too short)'
+    if 'B' in roles: return 'duplicate struct name: different ancestor suffixes whose concatenated PascalCase names coincide'
+    return 'duplicate struct name: two positions with the same PascalCase path'
 
 def c04_clauses(structs, ctree=None):
     """[(label, bool, role)] on a concrete struct list"""
